@@ -443,6 +443,11 @@ func encoderSetters(c *explore.Ctx) {
 			continue
 		}
 		want, werr := json.Append(nil, pr.v, flags)
+		if invalidRaw := strings.Contains(pr.name, "malformed") || strings.Contains(pr.name, "garbage") || strings.Contains(pr.name, "empty"); invalidRaw && flags&json.TrustRawMessage == 0 && (err == nil || werr == nil) {
+			// whatever the other settings: without trust, a value that Valid rejects is refused
+			c.Fail("setters:invalid-raw-message-let-through:"+pr.name, "after %s (trust off), Encode(%s) returns %v and writes %q; Append with the same flags returns %v", desc, pr.name, err, buf.String(), werr)
+			continue
+		}
 		if (err == nil) != (werr == nil) {
 			if err == nil {
 				c.Fail("setters:accepts:"+pr.name, "after %s, Encode(%s) writes %q; Append with the flags these calls select fails: %v", desc, pr.name, buf.String(), werr)
